@@ -54,6 +54,9 @@ type ValueCase struct {
 	// an exclusive gateway behind T2 whose conditions read a data object that T1 stored ("w0" for even
 	// instances, "w1" for odd ones): every instance must be routed by its own data object
 	Gate bool `json:"gate,omitempty"`
+	// the process declares no data object of its own; the data objects come from ONE WithDataObjects option value
+	// that is used for every instance (an options slice an application builds once)
+	Shared bool `json:"shared,omitempty"`
 	env       *Env
 	defs      any
 	obs       []map[string]any // per instance: what was read
@@ -260,7 +263,15 @@ func canon16(v any) (typ string, val any) {
 
 func genC16(d *Draw) Case {
 	c := &ValueCase{Instances: 1 + d.N(3), Conc: d.N(4) != 0}
-	defer func() { c.Gate = d.Bool() }()
+	defer func() {
+		c.Gate = d.Bool()
+		c.Shared = d.N(3) == 2
+		if c.Shared {
+			// conditions look data objects up by the name the document declares; objects that only the option
+			// supplies have none (they are read back through the next task's data input, by id)
+			c.Gate = false
+		}
+	}()
 	draw := func(n int) []valSpec {
 		var out []valSpec
 		for i := 0; i < n; i++ {
@@ -397,12 +408,16 @@ func (c *ValueCase) xml() string {
 		b.WriteString("    <bpmn:sequenceFlow id=\"FA\" sourceRef=\"GX\" targetRef=\"TA\"><bpmn:conditionExpression xsi:type=\"bpmn:tFormalExpression\">getDataObject(&#34;who&#34;) == &#34;w0&#34;</bpmn:conditionExpression></bpmn:sequenceFlow>\n")
 		b.WriteString("    <bpmn:sequenceFlow id=\"FB\" sourceRef=\"GX\" targetRef=\"TB\"><bpmn:conditionExpression xsi:type=\"bpmn:tFormalExpression\">getDataObject(&#34;who&#34;) == &#34;w1&#34;</bpmn:conditionExpression></bpmn:sequenceFlow>\n")
 		b.WriteString("    <bpmn:sequenceFlow id=\"FD\" sourceRef=\"GX\" targetRef=\"TD\"/>\n")
-		b.WriteString("    <bpmn:dataObject id=\"who\" name=\"who\"/>\n")
+		if !c.Shared {
+			b.WriteString("    <bpmn:dataObject id=\"who\" name=\"who\"/>\n")
+		}
 	} else {
 		b.WriteString("    <bpmn:endEvent id=\"End\"><bpmn:incoming>F3</bpmn:incoming></bpmn:endEvent>\n")
 	}
 	for i := range c.Objects {
-		fmt.Fprintf(&b, "    <bpmn:dataObject id=\"o%d\" name=\"o%d\"/>\n", i, i)
+		if !c.Shared {
+			fmt.Fprintf(&b, "    <bpmn:dataObject id=\"o%d\" name=\"o%d\"/>\n", i, i)
+		}
 	}
 	b.WriteString("    <bpmn:sequenceFlow id=\"F1\" sourceRef=\"Start\" targetRef=\"T1\"/>\n")
 	b.WriteString("    <bpmn:sequenceFlow id=\"F2\" sourceRef=\"T1\" targetRef=\"T2\"/>\n")
@@ -467,13 +482,22 @@ func (c *ValueCase) Main() {
 	defer cancel()
 	engine := bpmn.NewEngine(bpmn.WithEngineContext(ctx))
 	done := make(chan int, c.Instances)
+	var sharedOpts []bpmn.Option
+	if c.Shared {
+		init := map[string]any{"who": "nobody"}
+		for k := range c.Objects {
+			init[fmt.Sprintf("o%d", k)] = "initial"
+		}
+		sharedOpts = []bpmn.Option{bpmn.WithDataObjects(init)}
+	}
 	client := func(i int) {
 		defer func() { done <- i }()
 		vars := map[string]any{}
 		for k, s := range c.Vars {
 			vars[fmt.Sprintf("v%d", k)] = mkValue(s, i)
 		}
-		proc, err := engine.NewProcess(defs, bpmn.WithContext(ctx), bpmn.WithVariables(vars), bpmn.WithIdGenerator(&ctrGen{prefix: fmt.Sprintf("i%d-", i)}))
+		opts := append(append([]bpmn.Option{}, sharedOpts...), bpmn.WithContext(ctx), bpmn.WithVariables(vars), bpmn.WithIdGenerator(&ctrGen{prefix: fmt.Sprintf("i%d-", i)}))
+		proc, err := engine.NewProcess(defs, opts...)
 		if err != nil {
 			L.AddG(i, "fatal", "NewProcess: "+err.Error(), "", 0)
 			return
@@ -737,6 +761,7 @@ func checkC16(cc Case, r *simrt.Result) *Outcome {
 	o.Viol = vl.v
 	o.Nontrivial = r.Switches > 0
 	probe(o, "several-instances-at-once", c.Instances > 1 && c.Conc)
+	probe(o, "data-objects-from-one-option-value-shared-by-all-instances", c.Shared && c.Instances > 1)
 	probe(o, "gateway-reads-each-instance's-data-object", c.Gate)
 	probe(o, "gateway-reads-data-object-several-instances-at-once", c.Gate && c.Instances > 1 && c.Conc)
 	for _, ov := range c.Over {
@@ -761,7 +786,7 @@ func checkC16(cc Case, r *simrt.Result) *Outcome {
 			break
 		}
 	}
-	o.Sample = map[string]any{"gate": c.Gate, "over": c.Over, "instances": c.Instances, "conc": c.Conc, "vars": c.Vars, "results": c.Results, "objects": c.Objects, "props": c.Props}
+	o.Sample = map[string]any{"shared": c.Shared, "gate": c.Gate, "over": c.Over, "instances": c.Instances, "conc": c.Conc, "vars": c.Vars, "results": c.Results, "objects": c.Objects, "props": c.Props}
 	return o
 }
 
